@@ -49,7 +49,7 @@ pub fn run_check(replay: Option<Value>) -> i32 {
     let probs = problems();
     let mss = ["span/3", "span/4", "span/pi", "1e-3*span", "inf", "none"];
     let fss = ["none", "max_step/2", "max_step"];
-    let tols: Vec<f64> = if thorough { vec![1e-3, 1e-6, 1e-9] } else { vec![1e-4, 1e-8] };
+    let tols: Vec<f64> = if thorough { vec![1e-3, 1e-4, 1e-5, 1e-6, 1e-7, 1e-8, 1e-9, 1e-10] } else { vec![1e-4, 1e-8] };
     let dims = vec![
         dim("method", &M6.iter().map(|m| mname(*m)).collect::<Vec<_>>()),
         dim("direction", &["forward", "backward(reflected)"]),
